@@ -9,7 +9,7 @@ SPEC = {
         "C06_spell_literal", "C06_spell_folded_noblank", "C06_spell_plain_multiline", "C06_spell_flow_multiline",
         "C06_read_range_lands", "C06_positions_nonempty_inside", "C06_rule_lines_enclose", "C06_rule_lines_inside_file", "C06_lines_of_encloses",
         "C06_shift_equivariance", "C06_carets_exact", "C06_carets_single_range", "C06_caret_split_range_fixed", "C06_plain_end_to_end",
-        "C06_refuted_dq_escape", "C06_full_statement_refuted",
+        "C06_refuted_dq_escape", "C06_dq_escapes_in_sync", "C06_full_statement_refuted",
         "C06_folded_blank_fixed", "C06_block_header_fixed", "C06_shallow_indent_fixed", "C06_continued_trailing_space_fixed",
         "C06_block_leading_blank_fixed", "C06_multibyte_prefix_fixed", "C06_anchor_prefix_fixed",
         "C06_nonvacuous", "C06_nonvacuous_blocks"]},
@@ -21,7 +21,7 @@ SPEC = {
     "level": "proof",
     "trusted_base": [
         "Coq 8.16.1 kernel + VM (vm_compute: the _refuted witnesses, the non-vacuity examples, the correspondence evaluation); "
-        "no axioms (Print Assumptions of all 30 theorems: closed under the global context)",
+        "no axioms (Print Assumptions of all 31 theorems: closed under the global context)",
         "hand-written Gallina model Model/Position.v of internal/diags/position.go (NewPositionRange, appendPosition, countLeadingSpace, "
         "byteColumn, skipBlanks, readRange, AddOffset, Lines, Len; Go's UTF-8 rune iteration is Model/CommentsUnicode.v decode_all) and of the lines accumulation of parseRule / YamlMap.Lines; tied to the current source on every run "
         "by differential execution only (no translator tables): the harness is compiled into the repo module and runs the REAL "
@@ -53,8 +53,8 @@ SPEC = {
 
 MANIFEST = {
     "text": "Coq theorems (no axioms) about a byte-exact executable model of internal/diags/position.go as of fix commits 660d1e1, "
-            "6c7f5de, 9af0d98, 69b377d, d1959ae: (0) UNCONDITIONALLY, for every line table, node (value, line, character column, block "
-            "style bit, anchor) and minColumn, a call that returns gives either the one-column fallback or positions that are well "
+            "6c7f5de, 9af0d98, 69b377d, d1959ae and the dq-escape fix: (0) UNCONDITIONALLY, for every line table, node (value, line, "
+            "character column, block style bit, anchor) that is not double quoted, and minColumn, a call that returns gives either the one-column fallback or positions that are well "
             "formed, inside the file and read back, in order and up to line folding, a PREFIX of the value (C06_positions_spell_prefix; "
             "induction over the greedy matcher: scan_line over bytes, npr_loop over lines with the lineBreak flag); (1) under the "
             "executable completeness guard node_ok (every line's scan finds its segment; value not made of line breaks only) the call "
@@ -66,7 +66,12 @@ MANIFEST = {
             "(3) unconditionally positions are non-empty, well-formed, on lines >= the node's line; rule line ranges enclose all "
             "parts/fields and stay inside any bound on them; (4) shift-equivariance under inserted lines / a common ASCII prefix; (5) the "
             "full statement is machine-refuted (vm_compute witness, same input in corpus/C06 re-run on the real parser) for ONE remaining "
-            "layout class registered as known finding (double-quoted scalars with an escape that hides the byte); the witnesses of the "
+            "layout class registered as known finding (value bytes hidden behind an escape sequence of a double-quoted scalar: since the "
+            "dq-escape fix the scanner decodes escape sequences token by token — modelled byte-exactly incl. unescape — and stays in "
+            "sync, but such a byte has no byte of its own in the file, so read back literally its position spells the escape's text; "
+            "the oracle checks everything under the 'modulo escapes' reading and excuses only the literal reading of those bytes); "
+            "double-quoted scalars without escape sequences are inside the guarded theorem (lemma scan_line_dq_plain), those with "
+            "self-escapes are covered by correspondence and oracle only; the witnesses of the "
             "seven classes repaired by the five fix commits are positive vm_compute statements now (C06_*_fixed) and regression inputs "
             "of the oracle. Tie: differential execution of the real NewPositionRange/readRange/Lines and of the real parser (all "
             "YamlNode.Pos, Rule.Lines, YamlMap.Lines) against the model; oracle: a printing generator that knows where it put each value "
@@ -74,9 +79,10 @@ MANIFEST = {
             "multi-line scalars, trailing blanks, anchors, non-ASCII text, nested/relaxed/embedded layouts, CRLF) compares read-back text "
             "and region, and every Diagnostic of the offline checks with the substring it must cover.",
     "note": "Trusted: Coq kernel+VM; hand model validated by differential execution on every run (no translator for this property); the "
-            "generator's knowledge of where it printed values; yaml.v3, PromQL parser, offline checks as inputs. Known finding (1 class: "
-            "dq escapes that hide the byte) is a genuine defect of the position heuristic kept in the tree; inside it the oracle still "
-            "requires non-empty positions inside the file that read back a prefix of the value and do not start in front of the scalar.",
+            "generator's knowledge of where it printed values and its independent escape decoder (YAML 1.2 5.7) for the 'modulo escapes' "
+            "reading; yaml.v3, PromQL parser, offline checks as inputs. Known finding (1 class: the literal reading of value bytes "
+            "hidden behind a double-quoted escape sequence) cannot be repaired (no byte in the file); everything else about such "
+            "scalars (every other byte, regions, rule line ranges, diagnostics, carets) is checked exactly.",
     "technique": "Coq proof by induction over the greedy matcher + vm_compute refutation/regressions + differential correspondence of the "
                  "real functions and parser + printing-generator oracle",
 }
